@@ -28,7 +28,7 @@ structure QOK (ths : List Thread) (k : Nat) (q : Queue.Shared) : Prop where
 /-- the embedded queue-level thread fits the program point -/
 def EmbOK (s : Shared) (tid : Queue.Tid) (t : Thread) : Prop :=
   match t.pc with
-  | .nbGet => ∃ q, s.qs[t.g]? = some q ∧ (∃ n, t.qt.prog = .batchKeep n) ∧ TOK t.qt ∧
+  | .nbGet => ∃ q, s.qs[t.g]? = some q ∧ (∃ n b, t.qt.prog = .batchLoop n b) ∧ TOK t.qt ∧
       (∀ e ∈ seqOf t.qt, e ∈ q.dequeued)
   | .lkStop => ∃ q, s.qs[t.g]? = some q ∧ (∃ e, t.qt.prog = .stopper e) ∧ TOK t.qt
   | .prod => ∃ q, s.qs[t.g]? = some q ∧ t.prog = .producer t.g ∧ (∃ src r, t.qt.prog = .producer src r) ∧
@@ -245,7 +245,7 @@ theorem local_goto {s' : Shared} {tid : Queue.Tid} {t t' : Thread} (hp : t'.prog
     (hpc : EmbOK s' tid t') (hrs : t'.replies = t.replies) (hr : t'.reply = t.reply) : Local s' tid t t' :=
   ⟨hp, hpc, fun r h => Or.inl (hrs ▸ h), fun r h => hr ▸ h⟩
 
-theorem tok_fresh (n : Nat) : TOK ({ prog := .batchKeep n, pc := .bAcq } : Queue.Thread) :=
+theorem tok_fresh (n : Nat) : TOK ({ prog := .batchLoop n true, pc := .bAcq } : Queue.Thread) :=
   (quiet_fresh n).tok
 
 theorem local_beginNext {s : Shared} {tid : Queue.Tid} {t : Thread} {n : Nat}
@@ -267,7 +267,7 @@ theorem local_beginNext {s : Shared} {tid : Queue.Tid} {t : Thread} {n : Nat}
     obtain ⟨q, hq⟩ := Option.isSome_iff_exists.mp (hgen g hg)
     refine ⟨rfl, ?_, fun r hr => Or.inl hr, fun r h => h⟩
     simp only [EmbOK]
-    exact ⟨q, hq, ⟨_, rfl⟩, tok_fresh _, by simp [(quiet_fresh _).seqOf]⟩
+    exact ⟨q, hq, ⟨_, _, rfl⟩, tok_fresh _, by simp [(quiet_fresh _).seqOf]⟩
 
 theorem local_callNext {s : Shared} {tid : Queue.Tid} {t : Thread} {n : Nat}
     (hgen : ∀ g, s.generator = some g → (s.qs[g]?).isSome = true) :
@@ -627,7 +627,7 @@ theorem ginv_step {c c' : Cfg} {tid : Queue.Tid} {lbl : String}
         exact ⟨q', by simp [List.getElem?_set_self hglt], hprog, ⟨src, r, by rw [hprog', hqp]⟩, htok', htag'⟩
   case nbGet =>
     simp only [EmbOK, hpc] at hemb
-    obtain ⟨q, hq, ⟨n, hqp⟩, htok, hsub⟩ := hemb
+    obtain ⟨q, hq, ⟨n, b0, hqp⟩, htok, hsub⟩ := hemb
     simp only [hq] at h
     cases hst : Queue.stepThread q t.qt tid false with
     | none => simp [hst] at h
@@ -652,7 +652,7 @@ theorem ginv_step {c c' : Cfg} {tid : Queue.Tid} {lbl : String}
         exact hsub'' e (by unfold Queue.seqOf; simp [hmem])
       · refine ginv_qstep hI ht hq hst htok hnew rfl rfl rfl ?_ (fun r hr => hr) (fun r hr => Or.inl hr)
         simp only [EmbOK, hpc]
-        exact ⟨q', by simp [List.getElem?_set_self hglt], ⟨n, by rw [hprog', hqp]⟩, htok', hsub''⟩
+        exact ⟨q', by simp [List.getElem?_set_self hglt], ⟨n, b0, by rw [hprog', hqp]⟩, htok', hsub''⟩
   case lkStop =>
     simp only [EmbOK, hpc] at hemb
     obtain ⟨q, hq, ⟨e0, hqp⟩, htok⟩ := hemb
